@@ -206,7 +206,15 @@ def order_domain(ctx, repo):
         if not ok:
             ctx.violation("O5", f"timedelta|{ast.unparse(n)}", pe.loc(n), f"`{ast.unparse(n)}` shifts a date by a fixed number of days; a prior-year / start-of-year look-up computed this way is off by a day in and after leap years")
     src = ast.unparse(loader)
-    ok = ".replace(year=" in src and ".replace(month=1, day=1)" in src
+    for n in ast.walk(loader):
+        if isinstance(n, ast.Call) and isinstance(n.func, ast.Attribute) and n.func.attr == "replace":
+            kws = {kw.arg: (kw.value.value if isinstance(kw.value, ast.Constant) else None) for kw in n.keywords}
+            if "month" in kws or "day" in kws and "year" not in kws:
+                good = kws.get("month") == 1 and kws.get("day") == 1
+                ctx.ob("O5", ok=good, distinct=ast.unparse(n))
+                if not good:
+                    ctx.violation("O5", f"replace|{ast.unparse(n)}", pe.loc(n), f"`{ast.unparse(n)}` is not 1 January of the year: the `jahresanfang` value is loaded at another date")
+    ok = ".replace(year=" in src and ".replace(month=" in src
     ctx.ob("O5", ok=ok, distinct="replace")
     if not ok and not [n for n in tds if not (isinstance((n.keywords[0].value if n.keywords else (n.args[0] if n.args else None)), ast.Constant))]:
         if not any(f.rule == "O5" for f in ctx.findings):
@@ -216,6 +224,79 @@ def order_domain(ctx, repo):
     ctx.ob("O5", ok=ok, distinct="leap-fallback")
     if not ok and ".replace(year=" in src:
         ctx.violation("O5", "leap-day-fallback", pe.loc(loader), "the prior-year look-up has no fallback for 29 February (date.replace raises ValueError there)")
+
+    # ---- O6 which date each recursive look-up uses
+    ctx.rule("O6", "recursive look-ups use the right date: `previous` -> the day before the entry in force; `group.param` -> the same date; `vorjahr` -> the same day one year earlier; `jahresanfang` -> 1 January of the same year")
+    lname = loader.name
+    dparam = loader.args.args[0].arg
+    la = {}
+    for n in ast.walk(loader):
+        if isinstance(n, ast.Assign) and len(n.targets) == 1 and isinstance(n.targets[0], ast.Name):
+            la.setdefault(n.targets[0].id, []).append(n.value)
+    parents = {}
+    for n in ast.walk(loader):
+        for c in ast.iter_child_nodes(n):
+            parents[c] = n
+
+    def branch_words(node):
+        words = set()
+        while node in parents:
+            par = parents[node]
+            if isinstance(par, ast.If):
+                in_body = any(node is x or node in list(ast.walk(x)) for x in par.body)
+                if in_body:
+                    words |= {c.value for c in ast.walk(par.test) if isinstance(c, ast.Constant) and isinstance(c.value, str)}
+                    words |= {"<no past policies>"} if ast.unparse(par.test).startswith("not ") and "past" in ast.unparse(par.test) else set()
+            node = par
+        return words
+
+    def date_kind(e, depth=0):
+        t = ast.unparse(e)
+        if isinstance(e, ast.Name) and e.id == dparam:
+            return "same"
+        if isinstance(e, ast.Name) and e.id in la and depth < 4:
+            ks = {date_kind(v, depth + 1) for v in la[e.id]}
+            return ks.pop() if len(ks) == 1 else "?"
+        if isinstance(e, ast.BinOp) and isinstance(e.op, ast.Sub) and "timedelta(days=1)" in ast.unparse(e.right) and ("max(" in ast.unparse(e.left)):
+            return "day-before-entry"
+        if isinstance(e, ast.Call) and ast.unparse(e.func) in ("numpy.max", "np.max", "max", "numpy.min", "np.min", "min"):
+            return "entry-date"
+        if isinstance(e, ast.Call) and isinstance(e.func, ast.Name):
+            helper = [n for n in ast.walk(loader) if isinstance(n, ast.FunctionDef) and n.name == e.func.id]
+            if helper:
+                ht = ast.unparse(helper[0])
+                arg0 = e.args[0] if e.args else None
+                same_arg = isinstance(arg0, ast.Name) and arg0.id == dparam
+                if ".replace(month=1, day=1)" in ht and same_arg:
+                    return "jan-1"
+                if ".replace(year=" in ht and same_arg:
+                    yrs = [kw.value.value for kw in e.keywords if kw.arg == "years" and isinstance(kw.value, ast.Constant)] + [a.value for a in e.args[1:] if isinstance(a, ast.Constant)]
+                    return "year-earlier" if yrs == [1] else f"{yrs}-years-earlier"
+        return "?"
+
+    rec = [n for n in ast.walk(loader) if isinstance(n, ast.Call) and isinstance(n.func, ast.Name) and n.func.id == lname]
+    want_by_word = {"previous": "day-before-entry", "vorjahr": "year-earlier", "jahresanfang": "jan-1"}
+    seen_kinds = set()
+    for c in rec:
+        if not c.args:
+            continue
+        k = date_kind(c.args[0])
+        words = branch_words(c)
+        expected = None
+        for w, kind in want_by_word.items():
+            if w in words:
+                expected = kind
+        if expected is None and ("." in words or "<no past policies>" in words or "deviation_from" in words):
+            expected = "same"
+        if expected is None or k == "?":
+            raise AnalysisError(f"loader: recursive look-up `{ast.unparse(c)[:70]}` not classifiable (date {k}, branch {sorted(words)[:4]}); O6 needs a re-read")
+        seen_kinds.add(expected)
+        ok = k == expected
+        ctx.ob("O6", ok=ok, distinct=(expected, c.lineno))
+        if not ok:
+            ctx.violation("O6", f"{expected}|{k}", pe.loc(c), f"the look-up in the `{[w for w in want_by_word if w in words] or ['group.param']}` branch loads the parameter at `{ast.unparse(c.args[0])}` ({k}), expected {expected}")
+    if not {"day-before-entry", "year-earlier", "jan-1", "same"} <= seen_kinds:
+        raise AnalysisError(f"loader: only look-ups of kinds {sorted(seen_kinds)} found; O6 needs a re-read")
 
     # ---- O4 conflict predicate
     sh = repo.module("shared.py")
